@@ -114,6 +114,12 @@ loop:
 func (a *phoutAggregator) handle(s *Sample) error {
 	a.buf = appendPhout(s, a.buf, a.config.ID)
 	a.buf = append(a.buf, '\n')
+	if a.writer.Available() < len(a.buf) {
+		// Only whole lines are handed to the destination: the standard output is shared with the aggregators of the
+		// other pools, a buffer that spills in the middle of a line lets their output land inside that line.
+		// (A failed flush is reported by the Write below: the writer's error is sticky.)
+		_ = a.writer.Flush()
+	}
 	_, err := a.writer.Write(a.buf)
 	a.buf = a.buf[:0]
 	releaseSample(s)
